@@ -670,6 +670,23 @@ pub(crate) mod b {
         }
     }
 
+    /// WITNESS of a known finding (C05): a box whose sides are one row high and drawn with ':' (or '!') only is not
+    /// recognised (the ':' needs a strong vertical neighbour, a '+' corner is only medium).  Fails while present.
+    #[test]
+    fn witness_dashed_sides_one_row() {
+        // control first: the same box with '|' sides, and with two rows of ':', is one rect and nothing else
+        for text in ["+--+\n|  |\n+--+\n", "+--+\n:  :\n:  :\n+--+\n", "+--+\n:  :\n+--+\n", "+--+\n!  !\n+--+\n"] {
+            let cb = CellBuffer::from(text);
+            let (frags, groups) = cb.get_fragment_spans();
+            let rects = frags.iter().filter(|f| matches!(f.fragment, Fragment::Rect(_))).count();
+            let others = frags.len() - rects + groups.iter().map(|g| g.len()).sum::<usize>();
+            if rects != 1 || others != 0 {
+                println!("BOUNDED-WITNESS box {:?}: {} rect(s) and {} other fragments", text, rects, others);
+                panic!("a closed box is exactly one rect");
+            }
+        }
+    }
+
     /// WITNESS of a known finding (C11): whether a tag next to the right border styles its box depends on the
     /// scale, because `Text::bounds` adds an unscaled width to a scaled anchor.  Fails while the defect is present.
     #[test]
